@@ -35,6 +35,12 @@ func c05Scenarios() []SchedScenario {
 			Threads: [][]VOp{{txn(map[string][]VEnt{"A": {e("e1", "v1")}, "B": {e("e2", "v1")}}), b("A", e("e1", "v2"))}, {{K: "delete", DS: "B"}}}},
 		{Name: "S12-rejected-batch-vs-writers-of-new-ids", Datasets: vDS, IDs: []string{"e1", "e2", "e3", "e4"},
 			Threads: [][]VOp{{{K: "badbatch", DS: "B", Ents: []VEnt{e("e4", "v1")}}, {K: "get", Ents: []VEnt{e("e4", "v1")}}}, {b("A", e("e1", "r23")), {K: "get", Ents: []VEnt{e("e1", "v1")}}}}},
+		{Name: "S13-public-namespaces-written-to-core.Dataset-vs-writer-of-new-ids", Datasets: vDS, IDs: vIDs,
+			Threads: [][]VOp{{{K: "setns", DS: "A", N: 1}, {K: "setns", DS: "A", N: 2}}, {b("A", e("e1", "v1")), b("A", e("e2", "r1"))}}},
+		{Name: "S14-create-twice-vs-writer-by-name", Datasets: vDS, IDs: vIDs, MapPoints: true,
+			Threads: [][]VOp{{{K: "create", DS: "C"}, b("C", e("e1", "v1"))}, {{K: "create", DS: "C"}, {K: "getin", DS: "C", Ents: []VEnt{e("e1", "v1")}}}}},
+		{Name: "S15-txn-waiting-for-a-lock-vs-batch-on-the-same-entity", Datasets: vDS, IDs: vIDs, Pre: []VOp{b("A", e("e1", "v1")), b("B", e("e1", "v1"))},
+			Threads: [][]VOp{{txn(map[string][]VEnt{"A": {e("e1", "v2r2")}, "B": {e("e1", "r23")}})}, {b("B", e("e1", "s")), {K: "get", Ents: []VEnt{e("e1", "v1")}}}}},
 		{Name: "S9-three-writers", Datasets: vDS, IDs: vIDs,
 			Threads: [][]VOp{{b("A", e("e1", "v1"))}, {b("B", e("e1", "v2"))}, {b("A", e("e1", "dv1"))}}},
 	}
